@@ -61,7 +61,7 @@ def run(ctx):
         vlib.require_actions_covered(r)
         ctx.tlc_check("chain", "Revert.tla", "Revert_casm_thorough.cfg", timeout=3000)
 
-    bs = behaviours(ctx, "StateHistory_sim.cfg", 6 if thorough else 2, 17 * (150 if thorough else 50), fix, 0)
+    bs = behaviours(ctx, "StateHistory_sim.cfg", 5 if thorough else 2, 17 * (150 if thorough else 50), fix, 0)
     # small alphabet around zero writes: most behaviours revert a block with a no-op zero write
     bs += behaviours(ctx, "StateHistory_h4sim.cfg", 2 if thorough else 1, 11 * (60 if thorough else 12), fix, 50)
     res = run_engine_keep(ctx, binary, "TestRevertReplay", {"behaviours": bs}, timeout=3000)
